@@ -6,7 +6,8 @@ import time
 import traceback
 
 HERE = os.path.dirname(os.path.dirname(os.path.abspath(__file__)))
-EVID = os.path.join(HERE, "evidence")
+# experiments on changed code (mutants, seeded changes) must not overwrite the evidence of the unchanged tree: they set VERIF_EVIDENCE_DIR to a scratch directory
+EVID = os.environ.get("VERIF_EVIDENCE_DIR") or os.path.join(HERE, "evidence")
 REPLAYS = os.path.join(HERE, "replays")
 KNOWN_FILE = os.path.join(HERE, "known_findings.json")
 
